@@ -74,6 +74,7 @@ type Prog struct {
 
 	ssaProg *ssa.Program
 	ssaPkgs map[string]*ssa.Package
+	declIdx *declIndex
 	NFuncs  int
 }
 
